@@ -75,7 +75,8 @@ def check(prog, rep):
     call, f = kc.node, kc.callee
     entry = 'regions'
     try:
-        k = interpret(prog, f, strict=False, inline_procedures=True)      # a relabelling loop moved into a helper reads as written in place
+        # a relabelling loop moved into a helper, or the two passes split into two kernels, read as written in place
+        k = interpret(prog, f, strict=False, inline_procedures=True, inline_all=lambda g_: g_.jit is not None and g_.module is f.module)
     except AnalysisIncomplete as e:
         # labels written through `x = out.ravel()` / `out.reshape(-1)`: a view only when `out` is C-contiguous.  An array
         # allocated like the input (zeros_like / empty_like ...) follows the input's layout: for a column-major raster the
@@ -617,6 +618,11 @@ def check_dtypes(prog, rep, f, pub, call, entry, c):
     targets = {out} | {w for w in c.labelwin if w}
     for name in sorted(targets):
         cl, dt = alloc_info(f, name)
+        if cl is None and name in c.k.arrays and getattr(c.k.arrays[name], 'alloc_node', None) is not None:
+            # allocated in a phase that was executed in place: the interpreter's allocation record
+            a_ = c.k.arrays[name]
+            cl = a_.alloc_node
+            dt = a_.dtype if isinstance(a_.dtype, str) else None
         if cl is None:
             rep.add('Q1', f, entry, 'allocation of %s' % name, f.node.lineno, None, 'single allocation not found')
             continue
@@ -684,6 +690,9 @@ def check_dtypes(prog, rep, f, pub, call, entry, c):
         for Ly, Lx in c.passes:
             ren[Sym(Ly.var)] = Rat.sym('Y')
             ren[Sym(Lx.var)] = Rat.sym('X')
+        for wname in c.valuewin:
+            if wname:
+                ren[App('arr', [wname])] = Rat.sym('VALUE_WINDOW')       # each pass may fill a window array of its own
 
         def canon(P):
             """order-free form of the predicate with both passes' loop variables renamed to (Y, X)"""
@@ -692,7 +701,7 @@ def check_dtypes(prog, rep, f, pub, call, entry, c):
             if isinstance(P, tuple) and P and P[0] == 'not':
                 return ('not', canon(P[1]))
             if isinstance(P, tuple) and P and P[0] == 'cmp':
-                return ('cmp', P[1], subst(P[2], lambda a: ren.get(a)).canon_key())
+                return ('cmp', P[1], subst(P[3] if len(P) > 3 else P[2], lambda a: ren.get(a)).canon_key())
             if isinstance(P, tuple) and P and P[0] == 'truth':
                 return ('truth', subst(P[1], lambda a: ren.get(a)).canon_key() if isinstance(P[1], Rat) else repr(P[1]))
             return P
